@@ -281,6 +281,9 @@ _SIBLINGS = [("K/same_call_body0", "K/same_call_body1"), ("K/same_call_body1", "
              ("D/sp_assign", "D/sp_read"), ("D/sp_augment", "D/sp_assign"), ("D/ra_assign", "D/explicit_regs"), ("D/sp_assign", "D/explicit_regs"),
              ("K/same_call_body0", "E/long_expr"), ("E/deep_if", "E/long_expr"), ("E/long_expr", "E/deep_parens"), ("K/recursive_body", "E/long_expr"),
              ("E/long_expr", "R/example/one_file_to_rule_them_all"), ("K/big_output", "K/same_call_body0"),
+             ("E/many_lines", "E/long_expr"), ("R/example/one_file_to_rule_them_all", "E/long_expr"), ("E/many_lines", "E/deep_parens"),
+             ("K/same_call_body0", "K/sleeps_medium"), ("K/sleeps_medium", "K/same_call_body0"), ("K/sleeps_short", "K/sleeps_medium"),
+             ("D/define_call", "D/names_like_defines"), ("D/define", "D/names_like_defines"), ("D/names_like_constants", "M/float"),
              ("L/unused_extra", "L/libs2"), ("L/unused_extra", "L/unused_extra#1"), ("M/prefix_names", "M/prefix_names_pragma")]
 
 
